@@ -1,0 +1,38 @@
+//go:build verif
+// +build verif
+
+package lorawan
+
+// Verification hooks. This file only exists for the compiler when the
+// "verif" build tag is set; it is never referenced by non-verif code.
+
+// VerifRegistrySnapshot returns a copy of the (uplink, CID) -> payload size
+// table of the MAC command registry.
+func VerifRegistrySnapshot() map[bool]map[CID]int {
+	macPayloadMutex.RLock()
+	defer macPayloadMutex.RUnlock()
+
+	out := make(map[bool]map[CID]int)
+	for uplink, m := range macPayloadRegistry {
+		out[uplink] = make(map[CID]int)
+		for cid, info := range m {
+			out[uplink][cid] = info.size
+		}
+	}
+	return out
+}
+
+// VerifResetProprietary removes all proprietary (CID >= 0x80) registrations,
+// restoring the registry to its initial state.
+func VerifResetProprietary() {
+	macPayloadMutex.Lock()
+	defer macPayloadMutex.Unlock()
+
+	for _, m := range macPayloadRegistry {
+		for cid := range m {
+			if cid >= 128 {
+				delete(m, cid)
+			}
+		}
+	}
+}
